@@ -122,8 +122,13 @@ def mergeResultsOld (rs : List Res) : Except Err Res :=
 
 /-! ### the table of `evo_res` -/
 
-/-- `os.path.basename` (POSIX): the part after the last `/` -/
-def basename (s : String) : String := (s.splitOn "/").getLastD ""
+/-- the part of a path after its last `/` (all of it when there is none) -/
+def lastSeg : List Char → List Char
+  | [] => []
+  | c :: r => if '/' ∈ r then lastSeg r else (if c = '/' then r else c :: r)
+
+/-- `os.path.basename` (POSIX): `p[p.rfind('/') + 1:]` -/
+def basename (s : String) : String := String.ofList (lastSeg s.toList)
 
 /-- the column label `result_to_df` uses -/
 def labelOf (label : Option String) (r : Res) : String :=
@@ -140,6 +145,10 @@ def hasDup : List String → Bool
   | [] => false
   | x :: r => r.contains x || hasDup r
 
+/-- one row per file, in command-line order -/
+def rowsOf (files : List (String × Res)) (useFilenames : Bool) : Table :=
+  files.map fun p => (labelOf (if useFilenames then some p.1 else none) p.2, p.2.stats)
+
 /-- `load_results_as_dataframe` + the duplicate check of `run` + `df.loc["stats"]`;
 `files` = (file name, loaded result) in command-line order -/
 def resultTable (files : List (String × Res)) (useFilenames merge : Bool) : Except Err Table :=
@@ -147,8 +156,7 @@ def resultTable (files : List (String × Res)) (useFilenames merge : Bool) : Exc
     match mergeResults (files.map Prod.snd) with
     | .error e => .error e
     | .ok m => .ok [(labelOf none m, m.stats)]
-  else
-    let rows := files.map fun p => (labelOf (if useFilenames then some p.1 else none) p.2, p.2.stats)
-    if hasDup (rows.map Prod.fst) then .error .duplicateLabels else .ok rows
+  else if hasDup ((rowsOf files useFilenames).map Prod.fst) then .error .duplicateLabels
+  else .ok (rowsOf files useFilenames)
 
 end Evo.ResultMerge
